@@ -122,16 +122,33 @@ def facts_dir(config="default", quiet=False):
         except OSError:
             pass
         return out
-    lock_path = os.path.join(CACHE, "extract.lock")
-    with open(lock_path, "w") as lk:
-        fcntl.flock(lk, fcntl.LOCK_EX)
+    # one lock per (tree, config) so that two checks of the same tree share one extraction, and a small pool of cargo target
+    # directories (each with its own lock) so that different trees — /repo and scratch copies carrying variants — extract in
+    # parallel instead of queueing behind one global lock
+    tree_lock = os.path.join(CACHE, "extract-%s-%s.lock" % (th, config))
+    with open(tree_lock, "w") as tlk:
+        fcntl.flock(tlk, fcntl.LOCK_EX)
         if os.path.exists(marker):
             return out
         build_driver()
+        slots = int(os.environ.get("VERIF_EXTRACT_SLOTS", "4"))
+        lk = None
+        while lk is None:
+            for k in range(slots):
+                cand = open(os.path.join(CACHE, "extract-slot-%d.lock" % k), "w")
+                try:
+                    fcntl.flock(cand, fcntl.LOCK_EX | fcntl.LOCK_NB)
+                    lk = cand
+                    slot = k
+                    break
+                except OSError:
+                    cand.close()
+            if lk is None:
+                time.sleep(1.0)
         if os.path.isdir(out):
             shutil.rmtree(out)
         os.makedirs(out)
-        target = os.path.join(CACHE, "target")
+        target = os.path.join(CACHE, "target" if slot == 0 else "target-%d" % slot)
         os.makedirs(target, exist_ok=True)
         _purge_member_fingerprints(target)
         env = dict(os.environ)
@@ -160,6 +177,11 @@ def facts_dir(config="default", quiet=False):
         if not quiet:
             print("[facts] extracted config=%s tree=%s in %.1fs" % (config, th, time.time() - t0))
         _gc_old(th)
+        lk.close()
+        try:
+            os.remove(tree_lock)
+        except OSError:
+            pass
     return out
 
 
